@@ -11,7 +11,8 @@ TOK = {
  "OP": ["+", "-", "*", "/", "^", "<", "==", "&&", "'", "..", "!", ">", "|>"],
  "LB": ["["], "RB": ["]"], "LP": ["("], "RP": [")"], "LC": ["{"], "RC": ["}"],
  "SEP": ["\n", ";", " ", ",", "\n\n", "\t"], "Q": ['"'],
- "ST": ["|", "```", "#", "⸢", "⸥", "╭", "╯", "~", ":", "<", "-", ".", "=>", "->", "├", "└", "@", "%%", "--", "*", "_", "$$", "~~~", ">", "1.", "(i)>"],
+ "ST": ["|", "```", "#", "⸢", "⸥", "╭", "╯", "~", ":", "<", "-", ".", "=>", "->", "├", "└", "@", "%%", "--", "*", "_", "$$", "~~~", ">", "1.", "(i)>",
+        "<<:", ":>>", ">:", "(?)>", "(!)>", "(x)>", "(+)>", "(*)>"],
  "EMO": ["😀", "👩‍👩‍👧", "🤖"], "CMB": ["é", "ạ̈", "́"], "BOX": ["│", "─", "┼", "╲"],
 }
 
@@ -142,6 +143,42 @@ def run(rep, tier, seed):
             nev += 1
             for (site, inst, cur, ln) in (r1.get("events") or [])[:400]:
                 fh.write(json.dumps({"ev": "Loop", "pid": i, "site": site, "inst": inst, "cursor": cur, "len": ln}) + "\n"); nev += 1
+    # ---- history independence: "the same text always gives the same outcome" - also after ANY history of parses in the same process
+    #      (parsing depends on nothing but the text).  Every stress text is parsed 40 times in a row in one process, then a fixed list of
+    #      probe texts; the repeats must agree with each other and every probe with its outcome in a fresh process.
+    wrappers = ["<<:", ":>>", ">:", ">", "(?)>", "(i)>", "(*)>", "(!)>", "(x)>", "(+)>", "%%", "-", "1.", "```mech\n", "$$", "[^1]:", "|", "#", "⸢"]
+    inner_bad = ["]", ")", "}", '"', "[", "{{", "```", "x := ", "|", "", "<<:]", ">:)"]
+    stress = [w + sp + b for w in wrappers for b in inner_bad for sp in ("", " ")]
+    stress += [w * 3 + b for w in wrappers[:4] for b in inner_bad[:4]] + [wrappers[0] + wrappers[2] + b for b in inner_bad[:4]]
+    reports = sorted({x for x, (r, oc) in zip(texts, outs1) if oc == "ok" and r and r.get("outcome") == "report" and len(x) < 160})
+    rnd.shuffle(reports); stress += reports[: (200 if tier == "quick" else 3000)]
+    probes = ["<<: a floated paragraph", ":>> a floated paragraph on the right", ">: x := 1", ">: a prompt", "> a quote", "(i)> some information",
+              "(?)> a question", "(!)> a warning", "%% an abstract", "x := 1 + 2", "[1 2; 3 4]", "f(x<u64>) = y<u64> :=\n  y := x + 1<u64>.", "- item\n- item",
+              "Some prose.", "# A title\n\nText.", "```mech\nx := 1\n```", "<<:]", ">:]", "x := [1 2", '"abc', "<<: >: nested", "{1, 2} ∪ {3}",
+              "<<: <<: <<: deep", ">: >: >: >: deep prompt", "| a | b |\n|---|---|\n| 1 | 2 |", "$$ x^2"]
+    REPS = 40
+    base, boc = execpool.run_requests([{"id": 0, "mode": "parseseq", "texts": probes}], nworkers=1, timeout=300)[0]
+    if boc != "ok" or not base or len(base.get("outs", [])) != len(probes):
+        raise tlc.TlcError(f"history family: the probe texts could not be parsed in a fresh process ({boc})")
+    hreqs = [{"id": i, "mode": "parseseq", "texts": [x] * REPS + probes} for i, x in enumerate(stress)]
+    houts = execpool.run_requests(hreqs, nworkers=16, timeout=600)
+    nhist = 0
+    for x, (r, oc) in zip(stress, houts):
+        replay = {"history": [x] * REPS, "probes": probes}
+        if oc != "ok" or not r or "outs" not in r:
+            rep.fail(f"C09/{'hang' if oc == 'hang' else 'abort'}", f"{REPS} parses of {x!r} in a row: process {oc}", replay); continue
+        outs = r["outs"]
+        first = core(outs[0])
+        if first and first.get("outcome") == "panic":
+            rep.fail("C09/panic", f"parse of {x!r} (history family) panics", replay); continue
+        dif = [k for k in range(1, REPS) if core(outs[k]) != first]
+        if dif:
+            rep.fail("C09/history-dependent", f"parse number {dif[0] + 1} of {x!r} in the same process differs from the first: {core(outs[dif[0]])} vs {first}", replay); continue
+        bad = [(probes[j], core(outs[REPS + j]), core(base["outs"][j])) for j in range(len(probes)) if core(outs[REPS + j]) != core(base["outs"][j])]
+        if bad:
+            rep.fail("C09/history-dependent", f"after {REPS} parses of {x!r} the text {bad[0][0]!r} gives {bad[0][1]}, in a fresh process {bad[0][2]}", replay); continue
+        nhist += 1
+    rep.cov["history_sessions"] = len(stress); rep.cov["history_sessions_ok"] = nhist; rep.cov["history_parses"] = len(stress) * (REPS + len(probes))
     tt = tlc.run("Trace_C09", "Trace_C09.cfg", workers=1, env={"TRACE": path}, deque=True, xss="1g", xmx="6g", timeout=3000, tag=f"Trace_C09_{tier}")
     if any("unconsumed" in m for m in tt.msgs):
         raise tlc.TlcError(f"Trace_C09 did not consume the trace: {tt.msgs[:2]}")
@@ -162,6 +199,6 @@ def run(rep, tier, seed):
     rep.cov.update({"states": t.generated, "transitions": max(t.generated - 1, 1), "distinct_states": t.distinct,
                     "traces_validated_against_impl": len(texts), "texts": len(texts), "token_strings": nmodel,
                     "outcomes": dict(tally), "trace_events_validated": nev, "negative_controls_passed": 1, "exhaustive": True,
-                    "rule": "all strings of <= 3 (quick) / <= 4 (thorough) tokens over 14 / 17 token classes (members rotate: identifiers, numbers, operators, brackets, quotes, separators, structure sigils incl. fences, Mika delimiters, emoji ZWJ sequences, combining marks, box drawing) + the repository's test programs with single-token mutations + whole documents and prefixes; each parsed twice in different processes; outcome records and H1 loop-progress events validated by TLC"})
+                    "rule": "all strings of <= 3 (quick) / <= 4 (thorough) tokens over 14 / 17 token classes (members rotate: identifiers, numbers, operators, brackets, quotes, separators, structure sigils incl. fences, Mika delimiters, emoji ZWJ sequences, combining marks, box drawing) + the repository's test programs with single-token mutations + whole documents and prefixes; each parsed twice in different processes; outcome records and H1 loop-progress events validated by TLC; history independence: every stress text (wrapper sigils x malformed inner elements, a sample of the texts that gave error reports) parsed 40 times in one process followed by 26 probe texts - repeats agree, probes agree with a fresh process"})
     rep.add_samples([{"text": x, "origin": o} for x, o in zip(texts, origin)])
     rep.assumptions += ["TLC 1.8.0", "hook H1 (cfg mech_verif) in the parser's hand-written loops", "the parser's own grapheme segmentation for line widths"]
